@@ -5,7 +5,6 @@ import (
 )
 
 var (
-	int64Type   = reflect.TypeOf(int64(0))
 	float64Type = reflect.TypeOf(float64(0))
 )
 
@@ -29,8 +28,9 @@ func Equal(a, b any) bool { //nolint: gocyclo
 		return true
 	case reflect.Bool:
 		return ra.Bool() == rb.Bool()
-	case reflect.Int, reflect.Int8, reflect.Int16, reflect.Int32, reflect.Int64:
-		return ra.Convert(int64Type).Int() == rb.Convert(int64Type).Int()
+	case reflect.Int, reflect.Int8, reflect.Int16, reflect.Int32, reflect.Int64,
+		reflect.Uint, reflect.Uint8, reflect.Uint16, reflect.Uint32, reflect.Uint64, reflect.Uintptr:
+		return compareInts(ra, rb) == 0
 	case reflect.Float32, reflect.Float64:
 		return ra.Convert(float64Type).Float() == rb.Convert(float64Type).Float()
 	case reflect.String:
@@ -49,6 +49,43 @@ func Equal(a, b any) bool { //nolint: gocyclo
 	}
 }
 
+// compareInts compares two integer-kinded values of any width and signedness by numeric
+// value; it returns -1, 0 or 1.
+func compareInts(a, b reflect.Value) int {
+	au, bu := isUintKind(a.Kind()), isUintKind(b.Kind())
+	switch {
+	case au && bu:
+		return compareUint64(a.Uint(), b.Uint())
+	case au:
+		if b.Int() < 0 {
+			return 1
+		}
+		return compareUint64(a.Uint(), uint64(b.Int())) // #nosec G115
+	case bu:
+		if a.Int() < 0 {
+			return -1
+		}
+		return compareUint64(uint64(a.Int()), b.Uint()) // #nosec G115
+	case a.Int() < b.Int():
+		return -1
+	case a.Int() > b.Int():
+		return 1
+	default:
+		return 0
+	}
+}
+
+func compareUint64(a, b uint64) int {
+	switch {
+	case a < b:
+		return -1
+	case a > b:
+		return 1
+	default:
+		return 0
+	}
+}
+
 // Less returns a bool indicating whether a < b.
 func Less(a, b any) bool {
 	a, b = ToLiquid(a), ToLiquid(b)
@@ -59,8 +96,9 @@ func Less(a, b any) bool {
 	switch joinKind(ra.Kind(), rb.Kind()) {
 	case reflect.Bool:
 		return !ra.Bool() && rb.Bool()
-	case reflect.Int, reflect.Int8, reflect.Int16, reflect.Int32, reflect.Int64:
-		return ra.Convert(int64Type).Int() < rb.Convert(int64Type).Int()
+	case reflect.Int, reflect.Int8, reflect.Int16, reflect.Int32, reflect.Int64,
+		reflect.Uint, reflect.Uint8, reflect.Uint16, reflect.Uint32, reflect.Uint64, reflect.Uintptr:
+		return compareInts(ra, rb) < 0
 	case reflect.Float32, reflect.Float64:
 		return ra.Convert(float64Type).Float() < rb.Convert(float64Type).Float()
 	case reflect.String:
@@ -79,7 +117,8 @@ func joinKind(a, b reflect.Kind) reflect.Kind { //nolint: gocyclo
 		if b == reflect.Array || b == reflect.Slice {
 			return reflect.Slice
 		}
-	case reflect.Int, reflect.Int8, reflect.Int16, reflect.Int32, reflect.Int64:
+	case reflect.Int, reflect.Int8, reflect.Int16, reflect.Int32, reflect.Int64,
+		reflect.Uint, reflect.Uint8, reflect.Uint16, reflect.Uint32, reflect.Uint64, reflect.Uintptr:
 		if isIntKind(b) {
 			return reflect.Int64
 		}
@@ -97,6 +136,15 @@ func joinKind(a, b reflect.Kind) reflect.Kind { //nolint: gocyclo
 func isIntKind(k reflect.Kind) bool {
 	switch k {
 	case reflect.Int, reflect.Int8, reflect.Int16, reflect.Int32, reflect.Int64:
+		return true
+	default:
+		return isUintKind(k)
+	}
+}
+
+func isUintKind(k reflect.Kind) bool {
+	switch k {
+	case reflect.Uint, reflect.Uint8, reflect.Uint16, reflect.Uint32, reflect.Uint64, reflect.Uintptr:
 		return true
 	default:
 		return false
